@@ -4,8 +4,8 @@
     [Inv] is the conjunction of the reachable-state invariants: coinswap (what ValidateGenesis
     demands of the stored pools and sequence, every stored parameter field valid, exact
     lpt-denom index), erc20 ([TokenPairsProofs.Inv] of C15), csr ([CsrProofs.csr_inv] of C16, stored
-    ids listed, share valid), inflation (stored parameters valid, epochs per period > 0, the
-    provision formula inside LegacyDec), epochs (identifiers in order and not blank, duration <> 0,
+    ids listed, share valid), inflation (stored parameters valid - which since the repair of
+    the C18 finding includes that the provision is computable -, epochs per period > 0), epochs (identifiers in order and not blank, duration <> 0,
     start time <> the zero-time sentinel), onboarding (threshold valid).
     [ctx_ok c]: bonded ratio and block height of InitGenesis are not negative. *)
 From stdpp Require Import gmap.
@@ -74,12 +74,11 @@ Proof. exact history_partial. Qed.
 Theorem C18_history_nonvacuous : WInv ex_world /\ hist_ok ex_gov 0 ex_world ex_ops.
 Proof. exact (conj ex_winv ex_hist_ok). Qed.
 
-(* the overflow guard of the invariant is needed: validator-accepted inflation parameters exist for which
-   InitGenesis panics on the module's own (valid) export *)
-Theorem C18_import_without_guard_refuted :
-  exists c s, ctx_ok c /\ inf_valid (is_par s) = true /\ 0 < is_epp s /\ 0 <= is_ident s /\
-              validate_inf (export_inf s) = true /\ import_inf c (export_inf s) = None.
-Proof. exact import_without_guard_refuted. Qed.
+(* whatever passes x/inflation's ValidateGenesis is imported without a panic: the validator evaluates the
+   worst case of the provision (repair of the C18 finding), which dominates every other evaluation *)
+Theorem C18_import_defined_for_valid_params : forall c g,
+  0 <= ic_bonded c -> validate_inf g = true -> exists s, import_inf c g = Some s.
+Proof. exact import_defined_for_valid_params. Qed.
 
 Print Assumptions C18_export_valid.
 Print Assumptions C18_import_export_defined.
@@ -92,4 +91,4 @@ Print Assumptions C18_wstep_inv.
 Print Assumptions C18_abs_inv.
 Print Assumptions C18_history_partial.
 Print Assumptions C18_history_nonvacuous.
-Print Assumptions C18_import_without_guard_refuted.
+Print Assumptions C18_import_defined_for_valid_params.
